@@ -95,6 +95,12 @@ func main() {
 			fmt.Println(GenProg(SubSeed(seed, "sample", i)).Render())
 			fmt.Println("// ----------------------------------------")
 		}
+	case "gen-format-sample":
+		// debugging aid: the formatter inputs of the host histories, one JSON string per line
+		n := envInt("VERIF_N", 20)
+		for i := 0; i < n; i++ {
+			fmt.Println(string(mustJSON(string(FormatInputLayout(SubSeed(seed, "in", i), 0)))))
+		}
 	default:
 		usage()
 	}
